@@ -19,8 +19,11 @@ for d in sorted(glob.glob('/tmp/seedout/C*/[0-9]')):
         if f == 'patch.diff' or f.endswith('_test.go') or f == 'main.go':
             shutil.copy(os.path.join(d, f), os.path.join(dst, f if not f.endswith('_test.go') else f + '.txt'))
     meta = json.load(open(os.path.join(d, 'meta.json')))
-    m = re.search(r'check (\S+) tier=(\S+) exit=(\d+)', txt)
-    labels = sorted(set(re.findall(r'^VIOLATION .*?entry=(\S+) label=(\S+)', txt, re.M)))
+    cands = [res] + glob.glob(os.path.join(d, 'recheck-*.txt'))
+    latest = max(cands, key=os.path.getmtime)
+    ctxt = open(latest).read()
+    m = re.search(r'check (\S+) tier=(\S+) exit=(\d+)', ctxt)
+    labels = sorted(set(re.findall(r'^VIOLATION .*?entry=(\S+) label=(\S+)', ctxt, re.M)))
     meta['breaks_property'] = pid
     meta['confirmed'] = {
         'how': 'tools/seedtest.sh in a scratch worktree of /repo: demo passes on the pristine tree; with the patch go build + the unedited test suite pass and the demo fails',
@@ -29,7 +32,15 @@ for d in sorted(glob.glob('/tmp/seedout/C*/[0-9]')):
                      'exit': int(m.group(3)) if m else None,
                      'detected': bool(m and m.group(3) == '1'),
                      'violations': [f'{e}:{l}' for e, l in labels]}
+    old = os.path.join(dst, 'meta.json')
+    if os.path.exists(old):
+        om = json.load(open(old))
+        meta['first_run'] = om.get('first_run', om.get('check'))
+    else:
+        meta['first_run'] = meta['check']
     meta['demo_file_note'] = 'the demonstration test is stored with a .txt suffix so that it is not compiled as part of /verif; copy it to <demo_pkg_dir>/demo_test.go'
     json.dump(meta, open(os.path.join(dst, 'meta.json'), 'w'), indent=1)
     shutil.copy(res, os.path.join(dst, 'result.txt'))
+    if latest != res:
+        shutil.copy(latest, os.path.join(dst, 'recheck.txt'))
     print(dst, 'detected' if meta['check']['detected'] else 'MISSED')
